@@ -1551,6 +1551,11 @@ impl World {
 			},
 		};
 		let pending = api_ok && payment_has_pending_work(&ms, id);
+		let underpays = cltv_adj < 0
+			|| (fee_delta < 0
+				&& infos.iter().any(|p| {
+					(0..p.nodes.len().saturating_sub(1)).any(|i| self.fwd_fee(p.nodes[i], p.hop_amts[i + 1]) > 0)
+				}));
 		self.pays.push(Pay {
 			idx,
 			from,
@@ -1566,7 +1571,7 @@ impl World {
 			claim_called: None,
 			fail_called: None,
 			ev: PayEvents::default(),
-			policy_violating: fee_delta < 0 || cltv_adj < 0,
+			policy_violating: underpays,
 			sender_balances_before: balances_before,
 			forgotten: None,
 			first_gen: self.nodes[from].disk.lock().unwrap().manager_generation + 1,
